@@ -250,7 +250,12 @@ def tokOfCode (c : Char) (file : Str) : Option Token :=
   | _ => none
 
 def runProgram (d : DState) (src : Str) (args : List String) : String × DState :=
-  let ctx := d.ctx
+  -- `rel=1`: the interpreter is started as `pakhi main.pakhi` from inside the root directory (a bare, relative main path);
+  -- relative module paths are then opened relative to that directory by the operating system
+  let ctx := if (kv args "rel").isSome then
+      { d.ctx with mainPath := "main.pakhi".toList,
+                   readFile := fun p => d.ctx.readFile (match p with | '/' :: _ => p | _ => pathJoin d.root p) }
+    else d.ctx
   let fuel := ((kv args "fuel").bind (·.toNat?)).getD 2000000
   let stdin := ((kv args "stdin").bind strOfHex).getD []
   let mode := gcModeOf ((kv args "gc").getD "native")
